@@ -8,7 +8,8 @@ import decsuite as ds
 THEOREMS = ["C05.c05_superfluous_exact", "C05.c05_done_exact", "C05.take_depleted", "C05.c05_cc",
             "C05.c05_surplus_walker", "runWalker_acct",
             "TRB.bind", "take_tr", "decode_tr", "decodeCommand_tr", "decodeResponse_tr", "runWalker_tr",
-            "C05.c05_truncated", "C05.c05_cut_beyond", "C05.c05_truncated_type", "C05.c05_truncated_command", "C05.c05_truncated_response"]
+            "C05.c05_truncated", "C05.c05_cut_beyond", "C05.c05_truncated_type", "C05.c05_truncated_command", "C05.c05_truncated_response",
+            "C05.c05_stream_truncated", "C05.c05_stream_walker", "decodeStream_srb", "decodeStream_fuel", "SRB.bind", "SRB.boundary"]
 
 
 def cc_of(events_lines):
@@ -107,6 +108,7 @@ def run(ctx, replay_case):
     })
 
 
-PROP = {"targets": ["TpmProofs.Props.C05"], "module": "TpmProofs.Props.C05", "theorems": THEOREMS, "run": run,
-        "assumptions": ["'events of every complete field precede the depleted error' is monitored and tied by correspondence; "
-                        "the exactness of superfluous/done and the surplus after a conforming value are theorems"]}
+PROP = {"targets": ["TpmProofs.Props.C05S"], "module": "TpmProofs.Props.C05S", "theorems": THEOREMS, "run": run,
+        "assumptions": ["truncation (depleted after exactly the complete fields) is a theorem for every input: structures, commands, responses "
+                        "(c05_truncated) and streams (c05_stream_truncated); the exactness of superfluous/done and the surplus after a conforming "
+                        "value are theorems; all of it is also monitored on the real code and tied by correspondence"]}
